@@ -21,7 +21,7 @@ RULE = ("schemas with nested schemas, config types, lists of schemas / config ty
         "cincoconfig.ValidationError (a ValueError), ref_path == the declared path (a.b[2].c, d[key]) and a message "
         "starting with that path (plus ' (name)' for a friendly name); non-trivial = >= 3 rejections judged over >= 2 "
         "routes; distinct = distinct (schema, probes)")
-REQUIRED = ("moved_object_probes:list-item", "moved_object_probes:section", "schemas_with_premounted_fragments", "object_item_probes", "reordered_list_probes", "pos:dict-key", "rejections_judged", "route:attr", "route:dotted", "route:ctor", "route:load_tree", "route:loads", "pos:nested",
+REQUIRED = ("duplicate_key_documents", "moved_object_probes:list-item", "moved_object_probes:section", "schemas_with_premounted_fragments", "object_item_probes", "reordered_list_probes", "pos:dict-key", "rejections_judged", "route:attr", "route:dotted", "route:ctor", "route:load_tree", "route:loads", "pos:nested",
             "pos:ctype", "pos:list-item", "pos:dict-entry", "pos:list-scalar", "pos:subconfig-slot", "friendly_names_judged",
             "after_prior_load")
 ASSUMPTIONS = ["unknown keys (AttributeError) and non-map top-level documents are not 'a value for a declared field'",
@@ -39,6 +39,17 @@ def generate(rng, ctx):
     for path, nd in spec.walk(schema):
         if nd["kind"] == "field" and rng.random() < 0.3:
             nd["params"]["name"] = "Friendly %s" % nd["key"].title()
+    # include fields (at the root and in a section); the file they name does not exist
+    incs = []
+    if rng.random() < 0.35:
+        schema["fields"].append({"kind": "field", "key": "inc0", "family": "include", "params": {}})
+        incs.append("inc0")
+        subs = [ch for ch in schema["fields"] if ch["kind"] == "schema"]
+        if subs:
+            sub = rng.choice(subs)
+            if all(ch["key"] != "inc1" for ch in sub["fields"]):
+                sub["fields"].append({"kind": "field", "key": "inc1", "family": "include", "params": {}})
+                incs.append(sub["key"] + ".inc1")
     # some sub-schemas are reusable fragments: built and used on their own before being mounted
     mounted = 0
     for path, nd in spec.walk(schema):
@@ -103,8 +114,15 @@ def generate(rng, ctx):
                        "index": rng.choice([0, 0, 1, 2]), "nitems": rng.choice([1, 2, 3]), "equal_items": rng.random() < 0.5,
                        "key": rng.choice(["k1", "kk", "a.b", "K"]), "fmt": rng.choice(FMT_FOR_LOADS),
                        "prior_load": rng.random() < 0.4, "reorder": rng.choice([None, None, "insert0", "pop0", "reverse", "swap", "swap", "rotate"]),
-                       "object_items": rng.random() < 0.5, "moved": rng.random() < 0.5,
+                       "object_items": rng.random() < 0.5, "moved": rng.random() < 0.5, "dupkey": rng.random() < 0.3,
                        "move_how": rng.choice(["append", "setitem", "assign", "insert0"])})
+    for path in incs:
+        # names with characters that mean something to string formatting, globbing, shells
+        name = rng.choice(["missing-file.cfg", "db%20settings.json", "shard-%d.json", "%s", "backup-%(host)s.json", "100%.cfg", "a%%b.cfg",
+                           "{0}.cfg", "{name}.cfg", "$HOME.cfg", "*.cfg", "no such dir/x.cfg", "\\x.cfg"])
+        probes.append({"pos": "include", "path": path, "bad": name, "routes": ["loads"], "index": 0, "nitems": 1, "equal_items": False,
+                       "key": "k1", "fmt": rng.choice(FMT_FOR_LOADS), "prior_load": False, "reorder": None, "object_items": False,
+                       "moved": False})
     return {"schema": schema, "probes": probes, "mounted": mounted, "twins": twins}
 
 
@@ -187,6 +205,8 @@ def run(case, ctx, res):
             err, want_path, fname, feat = out
             if feat.endswith(":after-reorder"):
                 res.count("reordered_list_probes")
+            if feat == "duplicate-key-document":
+                res.count("duplicate_key_documents")
             if "moved-from-sibling" in feat:
                 res.count("moved_object_probes:" + feat.split(":")[0])
             if feat.endswith(":object-items") or pr.get("object_items"):
@@ -384,9 +404,63 @@ def attempt_moved(cc, drv, pr, route, rng):
     return None
 
 
+def _has_float(v):
+    if isinstance(v, float):
+        return True
+    if isinstance(v, (list, tuple)):
+        return any(_has_float(x) for x in v)
+    if isinstance(v, dict):
+        return any(_has_float(x) for x in v.values())
+    return False
+
+
+def attempt_dupkey(cc, drv, pr, rng):
+    """A hand-written JSON / YAML document that names the target key twice in one object: a good value first, the
+    rejected one last (the last one counts)."""
+    import json
+
+    root, cfg = drv.root, drv.cfg
+    path, bad = pr["path"], pr["bad"]
+    if "[]" in path or pr["fmt"] not in ("json", "yaml"):
+        return None
+    node = spec.node_at(root, path)
+    if node is None or node["kind"] != "field" or node["family"] in ("secure", "challenge", "bytes", "list", "dict", "include"):
+        return None
+    try:
+        bad_txt = json.dumps(bad, allow_nan=False)
+    except (TypeError, ValueError):
+        return None
+    if model.accepts_disk(node, bad, drv.env)[0] is not False:
+        return None
+    good = None
+    for _ in range(8):
+        g = gen.one_value(rng, node, "valid", drv.env)
+        ok, disk = gen.disk_form(node, g, drv.env)
+        if ok and isinstance(disk, (str, int, float, bool)) and disk == disk:
+            good = disk
+            break
+    if good is None:
+        return None
+    if pr["fmt"] == "yaml" and (_has_float(good) or _has_float(bad)):
+        return None  # JSON text for a float ("1e+300") is not always a float for a YAML 1.1 parser
+    parts = path.split(".")
+    text = "{%s: %s, %s: %s}" % (json.dumps(parts[-1]), json.dumps(good), json.dumps(parts[-1]), bad_txt)
+    for seg in reversed(parts[:-1]):
+        text = "{%s: %s}" % (json.dumps(seg), text)
+    fname = node.get("params", {}).get("name")
+    feat = "duplicate-key-document"
+    if _default_ctype_on_path(root, path, {}):
+        feat = "ctype-default-instance"
+    return _call(lambda: cfg.loads(text.encode(), pr["fmt"])), path, fname, feat
+
+
 def attempt(cc, ctx, drv, pr, route, rng):
     """Deliver the rejected value through one route.  Returns (exception or None, expected path, friendly name,
     feature) or None when the route cannot carry this probe."""
+    if pr.get("dupkey") and route == "loads" and pr["pos"] in ("root", "nested", "ctype"):
+        got = attempt_dupkey(cc, drv, pr, rng)
+        if got is not None:
+            return got
     if pr.get("moved") and pr["pos"] in ("list-item", "nested", "ctype") and route in ("attr", "dotted"):
         got = attempt_moved(cc, drv, pr, route, rng)
         if got is not None:
